@@ -183,7 +183,8 @@ class T1World(World):
     reserved by the specification."""
     kind = "tt1"
 
-    def __init__(self, sx, hr, size, prefix="", rsv=(), oldlen=0, old_lt_80=False):
+    def __init__(self, sx, hr, size, prefix="", rsv=(), oldlen=0, old_lt_80=False,
+                 exact=False):
         self.sx = sx
         self.size = size
         phys = size
@@ -206,9 +207,15 @@ class T1World(World):
             ri += 1
             encs = _ctl_encodings(frm)
             pa, bo, e = sx.pick("enc%d" % ri, encs) if len(encs) > 1 else encs[0]
-            hi_nibble = sx.int("ctlhi%d" % ri, 0, 15)
-            if c == 'L':
+            if exact:
+                # the vendor's standard layout, byte for byte
+                pa, bo, e = [x for x in encs if x[2] == 3][0]
+                hi_nibble = 3 if c == 'L' else 0
+                nbits = sz * 8
+            else:
+                hi_nibble = sx.int("ctlhi%d" % ri, 0, 15)
                 nbits = sz * 8 - sx.int("lockbits_slack%d" % ri, 0, 7)
+            if c == 'L':
                 mem[p:p + 5] = [0x01, 0x03, (pa << 4) | bo, nbits & 0xFF,
                                 (hi_nibble << 4) | e]
             else:
